@@ -916,7 +916,14 @@ def check(run: Run):
             continue
         made += 1
         run.count("malformation", kind)
-        out = one(spec, kind)
+        try:
+            out = one(spec, kind)
+        except (OverflowError, ValueError) as e:
+            # the reader ACCEPTED the table and non-finite numbers reached the dataset tensors (they have no exact rational encoding)
+            if MALFORMATIONS[kind][1]:
+                run.fail(f"rejects:{kind}:accepted", f"malformed table ({kind}) is silently accepted: non-finite numbers reached the dataset "
+                         f"tensors ({type(e).__name__}: {e})", spec_json(spec), expected="LeaspyDataInputError", observed="accepted")
+            continue
         listed = MALFORMATIONS[kind][1]
         if out[0] == "ok" and listed:
             sig = "rejects:categorical-id-not-validated" if kind.endswith("-categorical") else f"rejects:{kind}:accepted"
